@@ -16,6 +16,7 @@ pub const FLOORS: &[&str] = &[
     "stmt:blkw_inner_word", "stmt:fill", "addr:below_origin", "addr:beyond_image", "label:goto",
     "label:goto_offset", "label:print", "label_colon", "label_own_line", "multibyte_in_source",
     "origin:default", "origin:other", "origin:ge8000", "image_straddles_8000", "break_or_orig_interleaved",
+    "assembly_after_memory_was_modified", "label_like_register_with_digits",
 ];
 
 pub fn run(cfg: &Cfg, col: &mut Collector) {
@@ -28,7 +29,12 @@ pub fn run(cfg: &Cfg, col: &mut Collector) {
 fn debugger_safe(name: &str) -> bool {
     // the command grammar reads b../o../x.. followed by digits of that radix as integers, r0-r7 as registers
     let first = name.chars().next().unwrap_or('x').to_ascii_lowercase();
-    !matches!(first, 'b' | 'o' | 'x' | 'r') && name.len() >= 2
+    if first == 'r' {
+        // r + digit + more label characters is a label (not a register, not an integer)
+        let b = name.as_bytes();
+        return b.len() >= 3 && b[1].is_ascii_digit() && b[2].is_ascii_digit();
+    }
+    !matches!(first, 'b' | 'o' | 'x') && name.len() >= 2
 }
 
 fn one_case(seed: u64, i: u64) -> CaseOut {
@@ -52,6 +58,18 @@ fn one_case(seed: u64, i: u64) -> CaseOut {
     let mut p = gen_program(&mut rng, &o);
     if origin.is_none() {
         p.items.retain(|it| !matches!(it, Item::Orig(_)));
+    }
+    // a label that looks like a register followed by more digits is an ordinary label, for the
+    // assembler and for the debugger's location grammar alike (registers are exactly r0..r7)
+    if rng.chance(1, 3) {
+        let names: Vec<String> = p.items.iter().filter_map(|it| match it { Item::Stmt { label: Some(l), .. } => Some(l.clone()), _ => None }).collect();
+        if let Some(old) = names.first() {
+            let new = rng.s(&["r10", "R25", "r18", "r77", "R00"]);
+            if !names.iter().any(|n| n == new) {
+                rename_label(&mut p, old, new);
+                out.class("label_like_register_with_digits");
+            }
+        }
     }
     let img = match encode(&p) {
         Verdict::Accept(img) => img,
@@ -107,7 +125,22 @@ fn one_case(seed: u64, i: u64) -> CaseOut {
             format!("+{}", k)
         }
     };
+    // some words are overwritten first: `assembly` shows the *source* of the statement which
+    // produced the word at that address, whatever the word holds now. (These lines come first so
+    // that the queries keep their positions: query k is line k + n_moves.)
     let mut lines = Vec::new();
+    let n_moves = if rng.bool() { 1 + rng.below(3) as usize } else { 0 };
+    for _ in 0..n_moves {
+        let a = orig as i32 + rng.below(n.max(1) as u64) as i32;
+        if a >= orig as i32 && a < 0xFE00 {
+            lines.push(format!("move x{:04x} x{:04x}", a, rng.u16()));
+        } else {
+            lines.push("registers".to_string());
+        }
+    }
+    if n_moves > 0 {
+        out.class("assembly_after_memory_was_modified");
+    }
     for q in &qs {
         lines.push(match q {
             Q::Asm(a) => format!("{} {}", rng.s(&["assembly", "a", "asm"]), match rng.below(3) { 0 => format!("x{:04x}", a), 1 => format!("{}", a), _ => format!("0x{:X}", a) }),
@@ -145,7 +178,8 @@ fn one_case(seed: u64, i: u64) -> CaseOut {
     out.evals = qs.len() as u64;
     let dbg = &sess.obs.out_debugger;
     let mut prev_item: Option<usize> = None;
-    for (li, q) in qs.iter().enumerate() {
+    for (qi, q) in qs.iter().enumerate() {
+        let li = qi + n_moves;
         let (Some(before), Some(after)) = (
             sess.snaps.iter().find(|s| s.commands_read == li),
             sess.snaps.iter().find(|s| s.commands_read == li + 1),
